@@ -33,10 +33,11 @@ RULE += (' Also: the same exit callable / manager registered twice on an ExitSta
 RULE += (' Also: the plain-__anext__ source flavour (fails AND ends at the call).')
 RULE += (' Also: callables that are classes (calling creates an awaitable job).')
 RULE += (' Also: sources failing with a RuntimeError caused by Stop(Async)Iteration; a sized class source.')
+RULE += (' Also: a synchronous mapping handed over as an iterable (iterated over its keys; never asked for values, keys() or items()).')
 ASSUMPTIONS = ["baseline (list + def) behaviour itself is judged by C01/C02, not here"]
 EXHAUSTIVE = {"quick": False, "thorough": False}
 N_SPECS = {"quick": 6000, "thorough": 200000}
-SRC_FL = ["list", "getitem_seq", "sync_iter", "async_gen", "async_class", "async_class_bare", "async_class_future", "async_class_lazy", "async_iterable", "sync_iterable", "async_class_plainnext", "async_class_sized"]
+SRC_FL = ["list", "getitem_seq", "sync_iter", "async_gen", "async_class", "async_class_bare", "async_class_future", "async_class_lazy", "async_iterable", "sync_iterable", "async_class_plainnext", "async_class_sized", "sync_mapping"]
 FN_FL = ["def", "async_def", "partial", "callobj", "awaitobj", "classobj"]
 
 
@@ -49,7 +50,7 @@ SRC_FAULTS = ["AttributeError", "TypeError", "KeyError", "ValueError", "LookupEr
 # flavours that can be made to fail at their k-th use (a plain list / tuple cannot; for a __getitem__ sequence an
 # IndexError / LookupError subclass is the end signal)
 FAULTABLE = ["sync_iter", "async_gen", "async_class", "async_class_bare", "async_class_future", "async_class_lazy",
-             "async_iterable", "sync_iterable"]
+             "async_iterable", "sync_iterable", "sync_mapping"]
 
 
 def _call_fault(case):
